@@ -428,6 +428,12 @@ class WebSocketApp:
                     return closed(e)
                 else:
                     raise e
+            except Exception as e:
+                # reset by peer, protocol or payload error ...: with an external
+                # dispatcher nobody above us would hand it to handleDisconnect()
+                if custom_dispatcher:
+                    return closed(e)
+                raise
 
             if op_code == ABNF.OPCODE_CLOSE:
                 return teardown(frame)
